@@ -24,7 +24,7 @@ META = {
   "h_e_to_link_fields": {"kind": "K",
     "functions": ["gfapy.line.edge.gfa2.to_gfa1.ToGFA1.overlap/oriented_from/oriented_to/from_segment/to_segment/from_orient/to_orient/pos/_is_sid1_from/_segment_role",
                   "AlignmentType._alignment_type"],
-    "bounds": "one E line whose intervals are derived from ANY segment lengths and a CIGAR of 1..3 operations with ANY lengths (dovetail suffix/prefix, prefix/suffix, prefix/prefix, suffix/suffix, containment either way); orientations symbolic",
+    "bounds": "one E line whose intervals are derived from ANY segment lengths and a CIGAR of 1..3 operations with ANY lengths (dovetail suffix/prefix, prefix/suffix, prefix/prefix, suffix/suffix, containment either way with the contained segment in the middle, at the start or at the end of the container); orientations symbolic",
     "timeout": {"quick": 200, "thorough": 900}, "parts": {"quick": 4, "thorough": 4}},
   "h_roundtrip_gfa1": {"kind": "G",
     "functions": ["Gfa.to_gfa2/to_gfa2_s/to_gfa1/to_gfa1_s", "VersionConversion.to_version/to_version_s", "gfa1.to_gfa2.ToGFA2._to_gfa2_a",
@@ -34,7 +34,7 @@ META = {
     "timeout": {"quick": 400, "thorough": 1800}, "parts": {"quick": 16, "thorough": 16}},
   "h_roundtrip_gfa2": {"kind": "G",
     "functions": ["Gfa.to_gfa1/to_gfa1_s/to_gfa2_s", "gfa2.to_gfa1.ToGFA1._to_gfa1_a", "ordered ToGFA1", "records without counterpart"],
-    "bounds": "GFA2 documents: 2-3 segments, E line from 7 interval patterns (dovetail x4, containment x2, internal) x orientations x 3 alignments, plus F, G, U, custom record, O paths (segments only / through the edge / the edge alone forwards and backwards / backwards edge then segment): dropped or refused, never mistranslated; converted text valid GFA1 at vlevel 3; back-conversion equivalent",
+    "bounds": "GFA2 documents: 2-3 segments, E line from 9 interval patterns (dovetail x4, containment x4 incl. at the container's end/start, internal) x orientations x 3 alignments, plus F, G, U, custom record, O paths (segments only / through the edge / the edge alone forwards and backwards / backwards edge then segment): dropped or refused, never mistranslated; converted text valid GFA1 at vlevel 3; back-conversion equivalent",
     "timeout": {"quick": 400, "thorough": 1200}, "parts": {"quick": 14, "thorough": 14}},
  },
 }
@@ -112,7 +112,8 @@ def h_containment_to_e_coords(pf: bool, pt: bool, Lf: int, Lt: int, pos: int, op
   return True
 
 # E-line patterns: (kind of side 1, kind of side 2)
-EPAT = [("sfx", "pfx"), ("pfx", "sfx"), ("pfx", "pfx"), ("sfx", "sfx"), ("inner", "whole"), ("whole", "inner")]
+EPAT = [("sfx", "pfx"), ("pfx", "sfx"), ("pfx", "pfx"), ("sfx", "sfx"), ("inner", "whole"), ("whole", "inner"),
+        ("whole", "sfx"), ("whole", "pfx"), ("sfx", "whole"), ("pfx", "whole")]      # containments touching an end of the container
 
 def _interval(kind, L, n, inner_beg):
   """interval of aligned length n on a segment of length L"""
@@ -124,7 +125,7 @@ def _interval(kind, L, n, inner_beg):
 def h_e_to_link_fields(p1: bool, p2: bool, pat: int, L1: int, L2: int, ib: int, ops: List[Tuple[int, int]]) -> bool:
   """
   pre: (2 * p1 + p2) % NPART == PART
-  pre: 0 <= pat < 6
+  pre: 0 <= pat < 10
   pre: 1 <= len(ops) <= 3
   pre: all(0 <= c < 4 and 0 <= n for (c, n) in ops)
   pre: L1 >= 2 and L2 >= 2 and ib >= 1
@@ -293,7 +294,7 @@ def h_roundtrip_gfa1(kind: bool, ci: int, pf: bool, pt: bool, named: bool, pth: 
   return True
 
 E7 = [(("6", "10$"), ("0", "4")), (("0", "4"), ("6", "10$")), (("0", "4"), ("0", "4")), (("6", "10$"), ("6", "10$")),
-      (("2", "6"), ("0", "4$")), (("0", "4$"), ("3", "7")), (("2", "6"), ("3", "7"))]
+      (("2", "6"), ("0", "4$")), (("0", "4$"), ("3", "7")), (("2", "6"), ("3", "7")), (("0", "4$"), ("6", "10$")), (("0", "4"), ("0", "4$"))]
 ALN = ["4M", "1M1D2M1I", "*"]
 EXTRA = [None, "F\ta\tread1+\t0\t4\t0\t4\t*", "G\tg1\ta+\tb-\t5\t*", "U\tu1\ta b e1", "X\tcustom\tdata", "O\to1\ta+ b+",
          "O\to2\ta+ e1+ b+", "E\te2\ta+\tb+\t1\t5\t1\t5\t2,2\tTS:i:2", "O\to3\te1+", "O\to4\te1-", "O\to5\te1- {a}"]
@@ -301,7 +302,7 @@ NX = len(EXTRA)
 
 def h_roundtrip_gfa2(pi: int, ai: int, p1: bool, p2: bool, xi: int) -> bool:
   """
-  pre: 0 <= pi < 7 and 0 <= ai < 3 and 0 <= xi < NX
+  pre: 0 <= pi < 9 and 0 <= ai < 3 and 0 <= xi < NX
   pre: (pi + xi) % NPART == PART
   post: _ == True
   """
